@@ -102,6 +102,8 @@ def cases(rng, tier):
         use = " ".join("_ = p%d%s;" % (g, ".a" if "U;" in d else "") for g, (_, d) in enumerate(chosen)) if rng.random() < 0.5 else ""
         lines.append("@compute @workgroup_size(1) fn main() { %s }" % use)
         out.append({"wgsl": "\n".join(lines) + "\n", "family": "lookalike_groups", "opts": {}, "truth": truth})
+    # the special families first: they must be among the modules that are compiled and run on the shim
+    out.sort(key=lambda c: 0 if c["family"] in ("lookalike_groups", "many_groups") else 1)
     return out
 
 
